@@ -25,11 +25,18 @@
   instance (ignored), does not parse (rejected) or is illegally numbered (discarded) leaves the peer tag,
   the protocol version and the long-term key selected for it exactly as they were before the call —
   whatever looking at its prefix had committed the conversation to.
+  `receiveUnit_unknown_frame`, `receive_unknown_frame`, `receive_unknown_fragCtx` (repaired code, exact;
+  Proofs.Fixes4): a message of an unknown type — whose instance tags are never looked at — yields no
+  plaintext, no error and nothing to send but the injections that were pending; the log gains
+  ReceivedMessageUnrecognized and the conversation is what it was but for the injection queue handed
+  out: in particular `fragCtx` is kept (it was emptied before the repair), so anybody's unknown-type
+  message no longer destroys the fragments collected from the peer.
 -/
 
 import Proofs.ConvLife
 import Proofs.Frag
 import Proofs.Fixes3
+import Proofs.Fixes4
 namespace Otr.C15
 open Otr
 
@@ -146,5 +153,24 @@ theorem receiveFragment_rejected_unbinds : type_of% @Otr.receiveFragment_rejecte
 /-- … and after the whole `receiveUnit` -/
 theorem receiveUnit_rejected_fragment_unbinds : type_of% @Otr.receiveUnit_rejected_fragment_unbinds :=
   @Otr.receiveUnit_rejected_fragment_unbinds
+
+/-- repaired code (exact): a message of unknown type — no plaintext, only the pending injections to send, no error; conversation unchanged but for the emptied injection queue (`fragCtx` kept), log gains ReceivedMessageUnrecognized -/
+theorem receiveUnit_unknown_frame (K : Crypto) (fuel : Nat) (msg : Bytes) (fg : Bool) (s : MState)
+    (hp : isOTREnabled s.conv.policies = true) (hg : guessMessageType msg = .unknown) :
+    runM (receiveUnit K (fuel + 1) msg fg) s =
+      .ok (.ok ⟨none, s.conv.injections, none⟩,
+        { s with conv := { s.conv with injections := [] }, events := s.events ++ ["msg:14"] }) := by
+  first | exact Otr.receiveUnit_unknown_frame K fuel msg fg s hp hg | (apply Otr.receiveUnit_unknown_frame <;> assumption)
+
+/-- the same for `Receive` -/
+theorem receive_unknown_frame (K : Crypto) (msg : Bytes) (s : MState)
+    (hp : isOTREnabled s.conv.policies = true) (hg : guessMessageType msg = .unknown) :
+    runM (receive K msg) s =
+      .ok (.ok ⟨none, s.conv.injections, none⟩,
+        { s with conv := { s.conv with injections := [] }, events := s.events ++ ["msg:14"] }) := by
+  first | exact Otr.receive_unknown_frame K msg s hp hg | (apply Otr.receive_unknown_frame <;> assumption)
+
+/-- in particular the fragments collected so far, the peer tag, the version and all key material are what they were -/
+theorem receive_unknown_fragCtx : type_of% @Otr.receive_unknown_fragCtx := @Otr.receive_unknown_fragCtx
 
 end Otr.C15
